@@ -46,11 +46,9 @@ func (api *API) decode(ctx context.Context, b []byte, value reflect.Value, ts Ty
 	}
 
 	if deserializable != nil {
-		typeSettingValue := value
-		if valueType.Kind() == reflect.Ptr {
-			typeSettingValue = value.Elem()
-		}
-		globalTS, _ := api.typeSettingsRegistry.GetByType(typeSettingValue.Type())
+		// resolved like the encoder does: the settings registered for the type itself (a pointer type for a value held
+		// through a pointer) come first, then those of the pointed-to type
+		globalTS, _ := api.typeSettingsRegistry.GetByType(valueType)
 		ts = ts.merge(globalTS)
 		if objectType := ts.ObjectType(); objectType != nil {
 			typeDen, objectCode, err := getTypeDenotationAndCode(objectType)
